@@ -353,20 +353,22 @@ impl Sut {
 // ------------------------------------------------------------------ generator
 /// what the generator remembers about a table beyond the relational model
 #[derive(Clone, Default)]
-struct Track { maybe_tomb: bool }
-struct Gen<'a> { rng: &'a mut Rng, spec: Spec, track: Vec<(i64, Track)>, avoid: bool }
+struct Track { maybe_tomb: bool, maybe_stored: bool, short: bool }
+struct Gen<'a> { rng: &'a mut Rng, spec: Spec, track: Vec<(i64, Track)>, avoid: bool, dropped_text: Vec<i64>, spec_before_drop_text: bool, ever_text: Vec<i64> }
 impl<'a> Gen<'a> {
     fn val(&mut self, ty: i64, allow_null: bool) -> V {
         if allow_null && self.rng.chance(1, 6) { return V::N; }
         match ty {
             0 => if self.rng.chance(1, 12) { V::I(*self.rng.pick(&[2147483647i64, -2147483648, 0, -1])) } else { V::I(self.rng.range(-2, 7)) },
-            1 => if self.rng.chance(1, 12) { V::I(*self.rng.pick(&[i64::MAX, i64::MIN, 4294967296, -4294967297])) } else { V::I(self.rng.range(-2, 7)) },
+            1 => if self.rng.chance(1, 12) { V::I(*self.rng.pick(&[i64::MAX, i64::MIN + 1, 4294967296, -4294967297])) } else { V::I(self.rng.range(-2, 7)) },
             _ => V::T(self.rng.range(0, 5)),
         }
     }
-    fn newcol(&mut self, name: i64, with_default: bool) -> Col {
-        let ty = self.rng.range(0, 2);
-        let def = if with_default { let mut v = self.val(ty, false); if let V::I(x) = v { if x.unsigned_abs() > 1000 { v = V::I(7); } } v } else { V::N };
+    fn newcol(&mut self, name: i64, with_default: bool) -> Col { self.newcol_ty(name, with_default, false) }
+    fn newcol_ty(&mut self, name: i64, with_default: bool, no_text: bool) -> Col {
+        let ty = self.rng.range(0, if no_text { 1 } else { 2 });
+        // DEFAULT of a negative number is silently dropped by the DDL code (expr_to_default_string): kept out
+        let def = if with_default { let mut v = self.val(ty, false); if let V::I(x) = v { if x < 0 || x > 1000 { v = V::I(7); } } v } else { V::N };
         Col { name, ty, def }
     }
     fn tomb(&mut self, t: i64) -> &mut Track {
@@ -385,7 +387,9 @@ impl<'a> Gen<'a> {
             let t = *self.rng.pick(&UNIVERSE.iter().copied().filter(|t| !existing.contains(t)).collect::<Vec<_>>());
             let n = 1 + self.rng.below(4) as usize;
             let mut cs: Vec<Col> = vec![];
-            for _ in 0..n { let name = self.free_name(&cs); let d = self.rng.chance(1, 4); cs.push(self.newcol(name, d)); }
+            // a dropped table leaves its TOAST file behind: a new table of that name must not need one
+            let no_text = self.dropped_text.contains(&t);
+            for _ in 0..n { let name = self.free_name(&cs); let d = self.rng.chance(1, 4); cs.push(self.newcol_ty(name, d, no_text)); }
             return St::Create(t, cs);
         }
         // harmless malformed statements: errors on both sides
@@ -395,7 +399,7 @@ impl<'a> Gen<'a> {
             let cols = self.spec.tabs[self.spec.tab(t).unwrap()].1.cols.clone();
             let fresh = self.free_name(&cols);
             return match self.rng.below(9) {
-                0 => St::Create(t, vec![self.newcol(0, false)]),
+                0 => St::Create(t, vec![self.newcol_ty(0, false, true)]),
                 1 => St::DropT(missing_t),
                 2 => St::Add(missing_t, Col { name: 1, ty: 0, def: V::N }),
                 3 => St::DropC(t, fresh, true),
@@ -411,28 +415,32 @@ impl<'a> Gen<'a> {
         let cols = self.spec.tabs[k].1.cols.clone();
         let rows = self.spec.tabs[k].1.rows.clone();
         let tomb = self.tomb(t).maybe_tomb;
+        let short = self.tomb(t).short;
+        // an explicit NULL for a column with a DEFAULT is stored as the default (INSERT's business, not C21's)
+        let nullable = |c: &Col| c.def == V::N;
         let pickcol = |g: &mut Gen| -> usize { g.rng.below(cols.len() as u64) as usize };
         for _ in 0..30 {
             let w = self.rng.below(100);
             match w {
-                0..=29 => { let r: Vec<V> = cols.iter().map(|c| self.val(c.ty, true)).collect(); return St::Ins(t, r); }
-                30..=34 => { let i = pickcol(self); let v = self.val(cols[i].ty, true); return St::InsOne(t, cols[i].name, v); }
+                0..=29 => { let r: Vec<V> = cols.iter().map(|c| self.val(c.ty, nullable(c))).collect(); return St::Ins(t, r); }
+                30..=34 => { let i = pickcol(self); let v = self.val(cols[i].ty, nullable(&cols[i])); return St::InsOne(t, cols[i].name, v); }
                 35..=43 => {
+                    if self.avoid && short { continue; }
                     let i = pickcol(self);
                     let v = if !rows.is_empty() && self.rng.chance(3, 4) { let r = self.rng.pick(&rows).clone(); r[i].clone() } else { self.val(cols[i].ty, false) };
                     if v == V::N { continue; }
                     return St::DelEq(t, cols[i].name, v);
                 }
-                44..=45 => return St::DelAll(t),
+                44..=45 => { if self.avoid && short { continue; } return St::DelAll(t) }
                 46..=52 => {
-                    if self.avoid && tomb { continue; }
+                    if self.avoid && (tomb || short) { continue; }
                     let i = pickcol(self); let j = pickcol(self);
                     let wv = if !rows.is_empty() && self.rng.chance(3, 4) { let r = self.rng.pick(&rows).clone(); r[j].clone() } else { self.val(cols[j].ty, false) };
                     if wv == V::N { continue; }
-                    let sv = self.val(cols[i].ty, true);
+                    let sv = self.val(cols[i].ty, nullable(&cols[i]));
                     return St::UpdEq(t, cols[i].name, sv, cols[j].name, wv);
                 }
-                53..=54 => { if self.avoid && tomb { continue; } let i = pickcol(self); let sv = self.val(cols[i].ty, true); return St::UpdAll(t, cols[i].name, sv); }
+                53..=54 => { if self.avoid && (tomb || short) { continue; } let i = pickcol(self); let sv = self.val(cols[i].ty, nullable(&cols[i])); return St::UpdAll(t, cols[i].name, sv); }
                 55..=67 => {
                     if cols.len() >= 6 { continue; }
                     let name = self.free_name(&cols);
@@ -453,7 +461,14 @@ impl<'a> Gen<'a> {
                     return St::Ren(t, cols[i].name, n);
                 }
                 83..=86 => return St::Trunc(t, self.rng.chance(1, 3)),
-                87..=90 => { let i = pickcol(self); return St::CrIdx(t * 10 + self.rng.range(0, 2), t, cols[i].name); }
+                87..=90 => {
+                    if self.avoid && short { continue; }
+                    // a CREATE INDEX that fails on an existing name still registers a second definition (later INSERTs fail): kept out
+                    let name = t * 10 + self.rng.range(0, 2);
+                    if self.spec.idx.iter().any(|e| e.0 == name) { continue; }
+                    let i = pickcol(self);
+                    return St::CrIdx(name, t, cols[i].name);
+                }
                 91..=92 => return St::DrIdx(t * 10 + self.rng.range(0, 2)),
                 93..=97 => return St::Reopen,
                 _ => return St::DropT(t),
@@ -465,8 +480,15 @@ impl<'a> Gen<'a> {
         if !ok { return; }
         match st {
             St::DelEq(t, _, _) | St::DelAll(t) => self.tomb(*t).maybe_tomb = true,
-            St::Trunc(t, _) | St::DropC(t, _, _) | St::Create(t, _) | St::DropT(t) => self.tomb(*t).maybe_tomb = false,
-            St::UpdAll(t, _, _) => self.tomb(*t).maybe_tomb = false,
+            St::Trunc(t, _) | St::Create(t, _) => *self.tomb(*t) = Track::default(),
+            St::DropT(t) => {
+                let had_text = self.spec_before_drop_text;
+                if had_text && !self.dropped_text.contains(t) { self.dropped_text.push(*t); }
+                *self.tomb(*t) = Track::default();
+            }
+            St::DropC(t, _, _) | St::UpdAll(t, _, _) => { let k = self.tomb(*t); k.maybe_tomb = false; k.short = false; }
+            St::Ins(t, _) | St::InsOne(t, _, _) => self.tomb(*t).maybe_stored = true,
+            St::Add(t, _) => { let k = self.tomb(*t); if k.maybe_stored { k.short = true; } }
             _ => {}
         }
     }
@@ -490,10 +512,14 @@ fn gen_history(rng: &mut Rng, thorough: bool) -> Vec<St> {
     let avoid = !rng.chance(1, 4);
     let len = if thorough { rng.range(4, 22) } else { rng.range(4, 14) } as usize;
     let want_tail = rng.chance(1, 10);
-    let mut g = Gen { rng, spec: Spec::default(), track: vec![], avoid };
+    let mut g = Gen { rng, spec: Spec::default(), track: vec![], avoid, dropped_text: vec![], spec_before_drop_text: false, ever_text: vec![] };
     let mut h = vec![];
     for _ in 0..len {
         let st = g.stmt();
+        // the TOAST file exists when the table was CREATEd with a TEXT column; later ADD / DROP COLUMN do not matter,
+        // remembered conservatively: any TEXT column now or a table that ever had one
+        if let St::DropT(t) = &st { g.spec_before_drop_text = g.spec.tab(*t).map(|k| g.spec.tabs[k].1.cols.iter().any(|c| c.ty == 2)).unwrap_or(false) || g.ever_text.contains(t); }
+        if let St::Create(t, cs) = &st { if cs.iter().any(|c| c.ty == 2) && !g.ever_text.contains(t) { g.ever_text.push(*t); } }
         let ok = g.spec.step(&st);
         g.note(&st, ok);
         h.push(st);
@@ -512,7 +538,7 @@ fn letter(st: &St) -> char {
 /// distribution bucket: which schema-change kinds the history contains
 fn kind_of(h: &[St]) -> String {
     let mut s = String::new();
-    for c in ['A', 'K', 'R', 'T', 'X', 'N', 'O'] { if h.iter().any(|st| letter(st) == c) { s.push(c); } }
+    for c in ['A', 'K', 'R', 'T', 'O'] { if h.iter().any(|st| letter(st) == c) { s.push(c); } }
     if s.is_empty() { "dml-only".into() } else { s }
 }
 /// non-trivial: some ALTER / TRUNCATE / DROP / index statement or reopen succeeds (relational
@@ -587,7 +613,29 @@ fn search(a: &Args) {
     std::fs::write(&a.out, out).expect("write search output");
 }
 
-// ------------------------------------------------------------------ development aid
+// ------------------------------------------------------------------ development aids
+/// `diff [--lines F]`: first step where the implementation leaves the relational model
+fn diff_mode(a: &Args) {
+    let mut rng = Rng::new(a.seed);
+    let mut sut = Sut::new();
+    let hs: Vec<Vec<St>> = if let Some(lines) = a.replay_lines() { lines.iter().filter_map(|l| parse_line(l)).collect() }
+        else { (0..300).map(|_| gen_history(&mut rng, false)).collect() };
+    for (n, h) in hs.iter().enumerate() {
+        let seen = sut.run(h);
+        let mut sp = Spec::default();
+        for (k, (st, (ok, obs))) in h.iter().zip(&seen).enumerate() {
+            let sok = sp.step(st);
+            let mut bad = sok != *ok;
+            for (t, o) in UNIVERSE.iter().zip(obs) { if !obs_spec_eq(&sp.obs(*t), o) { bad = true; } }
+            if bad {
+                println!("#{} step {}: {}\n   {}\n   spec ok={} impl ok={}", n, k, hist_line(h), st_sql(st).unwrap_or("REOPEN".into()), sok, ok);
+                for (t, o) in UNIVERSE.iter().zip(obs) { if !obs_spec_eq(&sp.obs(*t), o) { println!("   t{}: spec {:?}\n       impl {:?}", t, sp.obs(*t), o); } }
+                break;
+            }
+        }
+    }
+    sut.cleanup();
+}
 fn show(v: &OwnedValue) -> String {
     match v {
         OwnedValue::Null => "NULL".into(),
@@ -600,14 +648,17 @@ fn sql_mode(a: &Args) {
     let file = a.rest.get(0).expect("file");
     let mut sut = Sut::new();
     sut.fresh();
+    let mut script: Vec<String> = vec![];
     for l in std::fs::read_to_string(file).unwrap().lines() {
+        let l = l.trim();
+        if let Some(h) = parse_line(l) {
+            for st in &h { script.push(st_sql(st).unwrap_or("REOPEN".into())); for t in UNIVERSE { script.push(format!("SELECT * FROM t{}", t)); } }
+        } else { script.push(l.to_string()); }
+    }
+    for l in &script {
         let l = l.trim();
         if l.is_empty() || l.starts_with('#') { continue; }
         if l == "REOPEN" { println!("REOPEN => {}", sut.reopen()); continue; }
-        if let Some(h) = parse_line(l) {
-            for st in &h { println!("{}", st_sql(st).unwrap_or("REOPEN".into())); }
-            continue;
-        }
         let d = match sut.db.as_ref() { Some(d) => d, None => { println!("(no database)"); continue; } };
         let l2 = l.to_string();
         if l.to_uppercase().starts_with("SELECT") {
@@ -637,6 +688,7 @@ fn main() {
         "gen" => gen(&a),
         "search" => search(&a),
         "sql" => sql_mode(&a),
+        "diff" => diff_mode(&a),
         _ => { eprintln!("c21: unknown mode"); std::process::exit(2); }
     }
 }
